@@ -358,7 +358,7 @@ class ObjRec:
 
 class ListRec:
     """concrete prefix-free list: python list of SVs; or symbolic: length term + element array/opaque"""
-    __slots__ = ("items", "length", "elem", "arr", "sym", "farr", "cnt", "shift", "sums", "preds", "origin", "parts", "appended")
+    __slots__ = ("items", "length", "elem", "arr", "sym", "farr", "cnt", "shift", "sums", "preds", "origin", "parts", "appended", "mem")
 
     def __init__(self, items=None, length=None, elem=("any",), arr=None, sym=None):
         self.items = items          # list[SV] when concrete, else None
@@ -370,6 +370,7 @@ class ListRec:
         self.shift = 0              # obj element lists: element i is the symbolic object `sym[i + shift]`
         self.sums = {}              # ghost sums: canonical element expression -> z3 Real (sum over all elements)
         self.origin = None          # (source list sym, [filter texts]) for lists produced by a filter comprehension
+        self.mem = None             # ghost membership set (Array elem -> Bool) kept exact under append; dropped by removals
         self.appended = []          # symbolic object lists: [(position term, value)] for elements appended on this path
         self.parts = None           # (oid_a, oid_b) for a concatenation of two symbolic lists
         self.preds = []             # element-wise facts known for every element (canonical predicate texts over `x`)
@@ -389,6 +390,7 @@ class ListRec:
         r.origin = self.origin
         r.parts = self.parts
         r.appended = list(self.appended)
+        r.mem = self.mem
         return r
 
 
